@@ -1489,6 +1489,12 @@ protected:
 
     virtual void internal_pop(buffer_operation *op) {
         __TBB_ASSERT(op->elem, nullptr);
+        // Items are popped from the back and reserved at the front:
+        // the only remaining item cannot be popped while it is reserved
+        if (this->my_reserved && this->size() == 1) {
+            op->status.store(FAILED, std::memory_order_release);
+            return;
+        }
 #if __TBB_PREVIEW_FLOW_GRAPH_TRY_PUT_AND_WAIT
         bool pop_result = op->metainfo ? this->pop_back(*(op->elem), *(op->metainfo))
                                        : this->pop_back(*(op->elem));
